@@ -167,6 +167,7 @@ static void c15_prehash(int phase)
     }
 }
 
+static void nc_poll(void) { if (!mc_opt("nopoll", 0)) (void)CONodeGetErr(&Node); }     /* --opt nopoll=1: the application never reads the node error */
 static int build(int cfg)
 {
     OdB b; CO_NODE_SPEC spec; CO_ERR err; uint32_t id = 0;
@@ -510,7 +511,7 @@ static int step(int ev)
     }
 
     check_state();
-    (void)CONodeGetErr(&Node);                                    /* the application reads (and thereby clears) the node error */
+    nc_poll();                                                       /* the application reads (and thereby clears) the node error */
     return MC_OK;
 }
 
